@@ -394,7 +394,13 @@ impl TxGen<'_, '_> {
 
     fn msg(&mut self, depth: usize) -> Msg {
         let reg = if self.p.registry { 2 } else { 1 };
-        let w: [u32; 8] = if depth == 0 { [18, 2 * reg, 2, 1, 2, reg, reg, reg] } else { [9, 2 * reg, 3, 1, 3, reg, reg, reg] };
+        let w: [u32; 8] = if self.p.sparse_ids {
+            [8, 6, 1, 1, 1, 5, 3, 2]
+        } else if depth == 0 {
+            [18, 2 * reg, 2, 1, 2, reg, reg, reg]
+        } else {
+            [9, 2 * reg, 3, 1, 3, reg, reg, reg]
+        };
         match self.g.weighted(&w) {
             0 => {
                 let node = self.node(depth, false);
